@@ -54,6 +54,16 @@ CHECKS["C22"] = ("model_checking", _SCP_TECH,
     "C-GET and C-MOVE with N in 1..3 announced sub-operations, every interleaving of pending yields with sub-operation outcomes success/warning/failure/exception, invalid datasets, early finals, raises and aborts: counter sum, monotonicity, final total, failed-instance list and final status rule.",
     _SCP_NOTE, "§6 C20-C22", "scp")
 
+_NEG_TECH = ("TLA+ NegotiationOps/Negotiation specs (PS3.8 context negotiation, documented role-selection table as a closed form checked against its 9 rows) "
+             "model-checked by TLC: acceptor table vs requestor reading for every proposal x support x role combination; every TLC-enumerated case plus seeded "
+             "random multi-context cases negotiated on a real acceptor AE (raw requestor / real requestor AE) and judged by the Trace_Negotiation spec (S2C + C2S)")
+CHECKS["C10"] = ("model_checking", _NEG_TECH,
+    "Exhaustive single-context domain (all ordered TS lists over 2 syntaxes x supported/unsupported x 9 acceptor role settings x 5 proposed roles) from TLC plus seeded random 1-4 context cases (duplicate abstract syntaxes, 3 syntaxes, unrestricted-storage mode) run against a real acceptor with a raw requestor; results per context id, reject reasons 3/4, chosen transfer syntax, role table, role replies, no accepted context without a role.",
+    "Trusted: transcription of the documented role table; loopback acceptor; role clauses judged on contexts whose abstract syntax is proposed once.", "§6 C10", "neg")
+CHECKS["C11"] = ("model_checking", _NEG_TECH,
+    "TLC checks complementarity/agreement of the two tables on the whole bounded domain (2 contexts in thorough); a real requestor AE and a real acceptor AE negotiate every fourth TLC case plus random cases and both sides' accepted/rejected contexts and roles are compared.",
+    "Trusted: as C10; role proposals (False, False) cannot be sent by the real requestor and are excluded here (covered by C10's raw requestor).", "§6 C11", "neg")
+
 NOT_YET = {}
 
 
